@@ -158,7 +158,8 @@ def extract_tr_surf_ids(mcnp_dict):
     tr_surf_ids = []
     for value in mcnp_dict.values():
         surfs = extract_surfaces_list(value.geometry)
-        tr_surf_ids.extend(abs(int(surf)) for surf in surfs if surf >= 1000)
+        tr_surf_ids.extend(abs(int(surf)) for surf in surfs
+                           if abs(int(surf)) >= 1000)
     return set(tr_surf_ids)
 
 
